@@ -265,13 +265,20 @@ def run(ctx):
         for i in incs:
             ctx.check(r.id not in grt.reach([grt.entry], blocked_nodes=[i]), 'X3',
                       'every retransmission is counted', key=('X3', 'uncounted-retransmission'), site=ctx.site(rt, r.ast))
-    due = [c for c in grt.nodes if c.kind == 'cond' and isinstance(c.ast, ast.Compare)
-           and src(c.ast.left) == 'self.retransmit_at' and isinstance(c.ast.ops[0], (ast.Lt, ast.LtE))
-           and ('time.time()' in src(c.ast.comparators[0]) or src(c.ast.comparators[0]) == 'now')]
-    for r in retn + deln:
-        ctx.check(any(common.dominated_by_edge(grt, r, c, 'T') for c in due), 'X3',
-                  'the timer acts (`%s`) only once the deadline has passed' % r.text()[:40],
-                  key=('X3', 'deadline-test', r.text()[:30]), site=ctx.site(rt, r.ast))
+    # by path condition: whatever the test looks like (guard clause, nesting, negated comparison, a local for the clock)
+    from .. import tq
+    from ..sval import strip_ids
+    RT = ctx.sval(rt)
+
+    def passed(sv, pc, attr_name):
+        return any(tq.entails(pc, sv.expr('self.%s %s time.time()' % (attr_name, op))) is True for op in ('<', '<='))
+    acts = [(pc, 'return of the stored request', node) for pc, t, node in RT.returns if tq.contains_match(t, ('call', '_', '_', '_')) or
+            'to_bytes' in tq.text(t)]
+    acts += [(pc, 'state := DELETED', st) for tg, v, pc, st, _ in RT.stores if strip_ids(tg) == ('attr', ('param', 'self'), 'state')]
+    ctx.floor('X3 actions of the retransmission timer (retransmit, give up)', len(acts), 2, rule='X3')
+    for pc, what, node in acts:
+        ctx.check(passed(RT, pc, 'retransmit_at'), 'X3', 'the timer acts (%s) only once the deadline has passed' % what,
+                  key=('X3', 'deadline-test', what[:30]), site=ctx.site(rt, node))
     adv = [n for n in grt.nodes if self_store(n, rt) == 'retransmit_at']
     ctx.check(len(adv) == 1, 'X3', 'the deadline is advanced in one place', key=('X3', 'deadline-advance-count'),
               site=ctx.site(rt, rt.node))
@@ -330,12 +337,11 @@ def run(ctx):
     gd = esc.add_exception_edges(dpd)
     emit = [n for n, x in common.nodes_calling(ctx, dpd, gd, common.calls_named('generate_dead_peer_detection_request'))]
     ctx.floor('the DPD request generation', len(emit), 1, rule='X5')
-    dconds = [c for c in gd.nodes if c.kind == 'cond' and isinstance(c.ast, ast.Compare)
-              and src(c.ast.left) == 'self.start_dpd_at' and isinstance(c.ast.ops[0], (ast.Lt, ast.LtE))]
+    DP = ctx.sval(dpd)
+    gen = DP.calls_to(name='generate_dead_peer_detection_request')
+    ctx.check(bool(gen) and all(passed(DP, c.pc, 'start_dpd_at') for c in gen), 'X5',
+              'a DPD probe is sent only after the DPD deadline passed', key=('X5', 'dpd-deadline'), site=ctx.site(dpd, dpd.node))
     for n in emit:
-        ctx.check(any(common.dominated_by_edge(gd, n, c, 'T') for c in dconds), 'X5',
-                  'a DPD probe is sent only after the DPD deadline passed', key=('X5', 'dpd-deadline'),
-                  site=ctx.site(dpd, n.ast))
         ctx.check(ts.states_at(dpd, n) == {'ESTABLISHED'}, 'X5', 'a DPD probe is sent only from ESTABLISHED',
                   key=('X5', 'dpd-state'), site=ctx.site(dpd, n.ast))
     init = ctx.func('ikesa.IkeSa.__init__')
